@@ -574,6 +574,10 @@ pub fn record(trace: &str) {
     for total in [253usize, 254, 255, 256, 300] {
         // CharStrings (6) + Private (11) are always there
         variants.push((Box::leak(format!("topdict-{}", total).into_boxed_str()), MiniCff { top_extra: filler(total - 17), ..Default::default() }));
+        // the same with non-empty, distinct neighbours (String INDEX, Global Subr INDEX): a Top DICT INDEX that
+        // does not fill its reservation shifts them
+        variants.push((Box::leak(format!("topdict-{}-neighbours", total).into_boxed_str()),
+                       MiniCff { top_extra: filler(total - 17), gsubrs: 3, strings: vec![b"Verif".to_vec(), b"C15 Full Name".to_vec()], ..Default::default() }));
     }
     for (name, v) in variants {
         let d = mini_cff(&v);
